@@ -24,7 +24,7 @@ from pbt.engine import Skip, Sub
 
 ID = "C10"
 RULE = (
-    "Hypothesis draws one fixed scene: shape (10..14, 6..10, 6..10), uniform or rectilinear grid, every axis either "
+    "Hypothesis draws one fixed scene: shape from {12x8x8, 8x13x9, 9x8x12}, uniform or rectilinear grid, every axis either "
     "periodic or two faces from {halo, PEC, PMC, PML(2..4 cells)}, isotropic background, 0..2 material boxes "
     "(isotropic/diagonal/full-tensor eps, optional mu, electric and magnetic conductivity), 2..3 sources from "
     "{uniform plane, Gaussian plane, electric dipole, magnetic dipole (tilted or axis aligned)} with cw/pulse/custom "
@@ -46,6 +46,8 @@ ASSUMPTIONS = [
     "(a linear projection, applied identically in every run)",
 ]
 
+# a small menu of grid shapes: every new shape costs seconds of one-off XLA compiles in place_objects
+SHAPES = ((12, 8, 8), (8, 13, 9), (9, 8, 12))
 LIN = ("field", "phasor")
 QUAD = ("energy", "poynting")
 
@@ -85,6 +87,20 @@ def _iso(m):
     return out
 
 
+def _fit_pml(shape, faces, min_interior):
+    """Thin the drawn PMLs (never below 2 cells) until `min_interior` cells remain between them on every axis."""
+    for ax in range(3):
+        fs = [f for f in (faces[f"min_{'xyz'[ax]}"], faces[f"max_{'xyz'[ax]}"]) if f["kind"] == "pml"]
+        while fs and shape[ax] - sum(f["thickness"] for f in fs) < min_interior:
+            thick = max(fs, key=lambda f: f["thickness"])
+            if thick["thickness"] <= 2:
+                fs.remove(thick)
+                thick.pop("thickness")
+                thick["kind"] = "none"
+            else:
+                thick["thickness"] -= 1
+
+
 def _fix_poynting_axis(d):
     """A flux plane with a second size-1 axis has no determinable normal (fdtdx then leaves the detector half
     initialised): name the normal explicitly, which is what a user has to do for such a region."""
@@ -96,23 +112,10 @@ def _fix_poynting_axis(d):
 
 @st.composite
 def case_strategy(draw, ctx):
-    shape = [draw(st.integers(10, 14)), draw(st.integers(6, 10)), draw(st.integers(6, 10))]
-    perm = draw(st.sampled_from([(0, 1, 2), (1, 2, 0), (2, 0, 1)]))
-    shape = [shape[perm[a]] for a in range(3)]
+    shape = list(draw(st.sampled_from(SHAPES)))
     steps = draw(st.integers(12, 32))
     faces = draw(scenes.faces_strategy(kinds=("none", "pec", "pmc", "periodic", "pml", "pml"), pml_thickness=(2, 4)))
-    # keep >= 4 interior cells on every axis
-    for ax in range(3):
-        lo_f, hi_f = faces[f"min_{'xyz'[ax]}"], faces[f"max_{'xyz'[ax]}"]
-        used = sum(f.get("thickness", 0) for f in (lo_f, hi_f) if f["kind"] == "pml")
-        while shape[ax] - used < 4:
-            for f in (lo_f, hi_f):
-                if f["kind"] == "pml" and f["thickness"] > 2:
-                    f["thickness"] -= 1
-            new_used = sum(f.get("thickness", 0) for f in (lo_f, hi_f) if f["kind"] == "pml")
-            if new_used == used:
-                shape[ax] += 1
-            used = new_used
+    _fit_pml(shape, faces, 4)
     grid = draw(scenes.grid_strategy(shape, faces, kinds=("uniform", "uniform", "rect")))
     interior = scenes.interior_range(shape, faces)
 
@@ -294,7 +297,7 @@ def body(ctx, case):
 
 
 SUBS = [
-    Sub(name="superposition", body=body, strategy=lambda ctx: case_strategy(ctx), quick=15, thorough=480,
-        lanes=("f64", "f32"), f32_fraction=0.2, quick_shards=4,
+    Sub(name="superposition", body=body, strategy=lambda ctx: case_strategy(ctx), quick=12, thorough=480,
+        lanes=("f64", "f32"), f32_fraction=0.25, quick_shards=3,
         rule="fixed scene; runs: each source alone, initial state alone, joint, scaled; numpy linear combination"),
 ]
